@@ -14,9 +14,13 @@ recursively to the real leaves (reference interpreter), a re-implementation of t
 rules (well-typed expressions must build, with the implied domain/range), and a numerical
 linearity test for every object whose `is_linear` flag is set.
 """
+import sys
 from fractions import Fraction
 
 import numpy as np
+
+if hasattr(sys, 'set_int_max_str_digits'):
+    sys.set_int_max_str_digits(0)
 
 from vf import core
 from vf.core import fs
@@ -266,21 +270,31 @@ def gen(rng, pool, cplx, depth, dom, ran, want_fn=False):
     return (f, gen(rng, pool, cplx, d, dom, ran), rand_vec(rng, nran, cplx))
 
 
-def rpn(ast):
+def rpn(ast, ren=None):
     k = ast[0]
     if k == 'L':
-        return ['L~{}'.format(ast[1])]
+        return ['L~{}'.format(ast[1] if ren is None else ren[ast[1]])]
     if k == 'neg':
-        return rpn(ast[1]) + ['neg']
+        return rpn(ast[1], ren) + ['neg']
     if k == 'pow':
-        return rpn(ast[1]) + ['pow~{}'.format(ast[2])]
+        return rpn(ast[1], ren) + ['pow~{}'.format(ast[2])]
     if k in BOPS:
-        return rpn(ast[1]) + rpn(ast[2]) + [k]
+        return rpn(ast[1], ren) + rpn(ast[2], ren) + [k]
     if k in SOPS:
-        return rpn(ast[1]) + ['{}~{}'.format(k, cs(ast[2]))]
+        return rpn(ast[1], ren) + ['{}~{}'.format(k, cs(ast[2]))]
     if k in VOPS:
-        return rpn(ast[1]) + ['{}~{}'.format(k, cl(ast[2]))]
+        return rpn(ast[1], ren) + ['{}~{}'.format(k, cl(ast[2]))]
     raise KeyError(k)
+
+
+def used_leaves(ast):
+    if ast[0] == 'L':
+        return {ast[1]}
+    out = set()
+    for a in ast[1:3]:
+        if isinstance(a, tuple):
+            out |= used_leaves(a)
+    return out
 
 
 def show(ast):
@@ -306,6 +320,23 @@ def show(ast):
              'add': '({0} + {1})', 'radd': '({1} + {0})', 'sub': '({0} - {1})',
              'rsub': '({1} - {0})'}
     return table[o].format(show(ast[1]), arg)
+
+
+def degree(ast, pool):
+    """Polynomial degree bound of the expression in x (keeps float values in range)."""
+    k = ast[0]
+    if k == 'L':
+        return {'pow2': 2, 'pow3': 3, 'l2sq': 2, 'constf': 0, 'zerof': 0}.get(pool[ast[1]].kind, 1)
+    a = degree(ast[1], pool)
+    if k == 'pow':
+        return a ** max(ast[2], 1)
+    if k == 'mul':
+        return a * degree(ast[2], pool)
+    if k in ('pprod', 'quot'):
+        return a + degree(ast[2], pool)
+    if k in ('add', 'sub'):
+        return max(a, degree(ast[2], pool))
+    return a
 
 
 def size(ast):
@@ -668,6 +699,13 @@ def linear_numerically(op, spaces, case):
     return None
 
 
+def flt(c):
+    try:
+        return float(c)
+    except OverflowError:
+        return float('inf') if c > 0 else float('-inf')
+
+
 def same(a, b, exact_ok):
     if a is None or b is None or isinstance(a, str) or isinstance(b, str):
         return a == b
@@ -677,16 +715,34 @@ def same(a, b, exact_ok):
         return True
     if exact_ok:
         return False
-    scale = max([1] + [abs(float(c)) for p in a + b for c in p])
-    return all(abs(float(p[0] - q[0])) <= 1e-9 * scale and abs(float(p[1] - q[1])) <= 1e-9 * scale
+    scale = max([1] + [abs(flt(c)) for p in a + b for c in p])
+    if scale == float('inf'):
+        return False
+    return all(abs(flt(p[0] - q[0])) <= 1e-9 * scale and abs(flt(p[1] - q[1])) <= 1e-9 * scale
                for p, q in zip(a, b))
+
+
+def trees_match(a, b, tolerant):
+    """Class trees equal; with `tolerant` (expression contains a quotient, whose float value
+    is rounded and may have been stored by the eager `f*0 -> Constant(f(0))`) the numbers in
+    them are compared with relative tolerance 1e-9, the structure still exactly."""
+    import re
+    if a == b:
+        return True
+    if not tolerant or a is None or b is None:
+        return False
+    num = re.compile(r'(?<![A-Za-z0-9])-?\d+(?:/\d+)?(?::-?\d+(?:/\d+)?)?(?![A-Za-z0-9])')
+    if num.sub('#', a) != num.sub('#', b):
+        return False
+    na, nb = [parse_c(t) for t in num.findall(a)], [parse_c(t) for t in num.findall(b)]
+    return same(na, nb, False)
 
 
 def showv(v):
     if v is None or isinstance(v, str):
         return str(v)
     return '[' + ', '.join('nan' if p is None else
-                           (str(float(p[0])) if p[1] == 0 else str(complex(float(p[0]), float(p[1]))))
+                           (str(flt(p[0])) if p[1] == 0 else str(complex(flt(p[0]), flt(p[1]))))
                            for p in v) + ']'
 
 
@@ -708,7 +764,7 @@ def random_cases(ctx, pool, cplx, n, maxdepth):
         dom = rng.choice(['v2', 'v3'])
         ran = rng.choice(['v2', 'v3', 'F', dom])
         ast = gen(rng, pool, cplx, depth, dom, ran)
-        if size(ast) > 60:
+        if size(ast) > 60 or degree(ast, pool) > 12:
             continue
         yield {'ast': ast, 'cplx': cplx, 'x': rand_point(rng, int(dom[1:]), cplx),
                'stream': 'random'}
@@ -762,7 +818,7 @@ def systematic_cases(ctx, pool, cplx, leaf_kinds):
             if ty1 is None or ty1[0] == 'F':
                 continue
             twos = level_forms(rng, pool, cplx, one, ty1)
-            if ctx.quick:
+            if ctx.quick and cplx:
                 twos = [t for t in twos if rng.random() < 0.5]
             for two in twos:
                 ty2 = pytype(two, pool)
@@ -773,9 +829,47 @@ def systematic_cases(ctx, pool, cplx, leaf_kinds):
                        'stream': 'level2'}
 
 
+def targeted_cases(ctx, pool, cplx):
+    """Reflected-first dispatch of `+`: left operand an Operator… expression object, right
+    operand the Functional… subclass of the same expression class (Python then calls
+    `Functional.__radd__` first and the summands are stored in swapped order)."""
+    rng = ctx.rng
+
+    def first(kind, n=3):
+        for i, l in enumerate(pool):
+            if l.kind == kind and l.dom == 'v{}'.format(n):
+                return ('L', i)
+    for n in (2, 3):
+        ip, lf, l2, p2 = first('inner', n), first('linf', n), first('l2sq', n), first('pow2', n)
+        v = rand_vec(rng, n, cplx)
+        w = rand_vec(rng, n, cplx)
+        pairs = [
+            (('add', ip, ip), ('add', lf, l2)),
+            (('sub', ip, ip), ('s.add', l2, 2)),
+            (('mul', ip, p2), ('mul', l2, p2)),
+            (('s.lmul', ip, 2), ('s.lmul', l2, 3)),
+            (('s.rmul', ('mul', ip, p2), 2), ('s.rmul', l2, -1)),
+            (('v.rmul', ip, v), ('v.rmul', l2, w)),
+            (('pprod', ip, ip), ('pprod', l2, lf)),
+            (('add', lf, l2), ('add', ip, ip)),
+            (('s.lmul', l2, 3), ('s.lmul', ip, 2)),
+        ]
+        for a, b in pairs:
+            for root in ('add', 'sub'):
+                yield {'ast': (root, a, b), 'cplx': cplx, 'x': rand_point(rng, n, cplx),
+                       'stream': 'targeted'}
+                yield {'ast': ('s.rmul', (root, a, b), 2), 'cplx': cplx,
+                       'x': rand_point(rng, n, cplx), 'stream': 'targeted'}
+
+
 def line_of(case, pool):
-    return 'expr leaves={} e={} x={}'.format('|'.join(l.spec for l in pool),
-                                            '|'.join(rpn(case['ast'])), cl(case['x']))
+    """Only the leaves the expression uses go on the wire (renumbered 0..k-1; the answer's
+    tree is renumbered back in `process`)."""
+    used = sorted(used_leaves(case['ast']))
+    case['local'] = used
+    ren = {g: i for i, g in enumerate(used)}
+    return 'expr leaves={} e={} x={}'.format('|'.join(pool[g].spec for g in used),
+                                            '|'.join(rpn(case['ast'], ren)), cl(case['x']))
 
 
 def describe(case, pool):
@@ -832,19 +926,30 @@ def problem_class(p, case, real, pool):
 
 def process(ctx, cases, pool, spaces, pool_ids, count=True):
     """Run the real code and the model on the cases; record violations / disagreements."""
+    import time
     reals, lines = [], []
+    t0 = time.time()
     for c in cases:
         c['forms'] = forms_of(c['ast'])
         with np.errstate(all='ignore'):
             reals.append(run_real(c, pool, spaces, pool_ids))
         lines.append(line_of(c, pool))
+    t1 = time.time()
     outs = core.run_driver('C04', lines)
+    t2 = time.time()
+    ctx.extra['seconds_real_code'] = round(ctx.extra.get('seconds_real_code', 0) + t1 - t0, 1)
+    ctx.extra['seconds_lean_driver'] = round(ctx.extra.get('seconds_lean_driver', 0) + t2 - t1, 1)
     for c, real, ans in zip(cases, reals, outs):
         desc = describe(c, pool)
         for p in real['problems']:
-            ctx.violation(problem_class(p, c, real, pool) + ' ' + key_of(c, real, pool),
-                          '{} :: {}'.format(desc['expr'], p)[:700], desc)
+            PENDING.append((size(c['ast']), len(PENDING),
+                            problem_class(p, c, real, pool) + ' ' + key_of(c, real, pool),
+                            '{} :: {}'.format(desc['expr'], p)[:700], desc))
         f = dict(t.split('=', 1) for t in ans.split()[1:]) if ans != 'bad-op' else {}
+        if 'tree' in f:
+            import re
+            loc = c['local']
+            f['tree'] = re.sub(r'L(\d+)', lambda m: 'L{}'.format(loc[int(m.group(1))]), f['tree'])
         mstatus = ans.split()[0]
         nontrivial = False
         if real['status'] == 'skip':
@@ -857,7 +962,7 @@ def process(ctx, cases, pool, spaces, pool_ids, count=True):
                          ans[:300])
         elif mstatus == 'ok':
             mty = '{}>{}/{}'.format(real['dom'], real['ran'], int(real['fn']))
-            if f['tree'] != real.get('tree'):
+            if not trees_match(real.get('tree'), f['tree'], 'quot' in c['forms']):
                 ctx.disagree(desc, 'tree ' + str(real.get('tree')), 'tree ' + f['tree'])
             elif (f['dom'], f['ran'], f['lin'], f['fn']) != (
                     real['dom'], real['ran'], str(int(real['lin'])), str(int(real['fn']))):
@@ -866,12 +971,16 @@ def process(ctx, cases, pool, spaces, pool_ids, count=True):
                     'dom/ran/lin/fn {} {} {} {}'.format(f['dom'], f['ran'], f['lin'], f['fn']))
             elif f['ty'] != mty:
                 ctx.disagree(desc, 'type ' + mty, 'typeOf ' + f['ty'])
+            elif f['linof'] != str(int(lin_expected(c['ast'], pool))):
+                ctx.disagree(desc, 'documented-rule flag {}'.format(lin_expected(c['ast'], pool)),
+                             'linOf ' + f['linof'])
             else:
                 ex = real.get('exact', False)
                 for name in ('val', 'inp'):
                     got = real.get(name)
-                    if got is None or got == 'undefined':
-                        continue
+                    if got is None or got == 'undefined' or None in got or \
+                            real.get('ref') == 'undefined':
+                        continue  # division by zero / float overflow: outside the model
                     mv = parse_cl(f[name])
                     if not same(got, mv, ex):
                         ctx.disagree(desc, '{} {}'.format(name, showv(got)),
@@ -888,6 +997,10 @@ def process(ctx, cases, pool, spaces, pool_ids, count=True):
                 import re
                 for cls in set(re.findall(r'[A-Za-z]+(?=\()', real['tree'])):
                     ctx.hit('class/' + cls)
+                if c['ast'][0] == 'add' and re.match(r'OperatorSum\(Functional', real['tree']):
+                    t1 = pytype(c['ast'][1], pool)
+                    if t1 is not None and not t1[2]:
+                        ctx.hit('dispatch/reflected-first-add')
         else:
             ctx.hit('raise/' + real.get('exc', '?').split(':')[0])
             if f.get('ty', 'none') != 'none':
@@ -907,6 +1020,23 @@ def process(ctx, cases, pool, spaces, pool_ids, count=True):
                 ctx.hit('compare/exact')
         else:
             ctx.evaluations += 1
+
+
+PENDING = []
+
+
+def flush(ctx):
+    """Report the recorded oracle failures, smallest expressions first (poor man's shrinking:
+    the streams contain every one- and two-level expression, so a small witness usually exists)."""
+    PENDING.sort(key=lambda t: t[:2])
+    seen = {}
+    for sz, _, key, what, desc in PENDING:
+        cls = key.split(';')[0]
+        if seen.get(cls, 0) >= 60:
+            continue
+        seen[cls] = seen.get(cls, 0) + 1
+        ctx.violation(key, what, desc)
+    del PENDING[:]
 
 
 def batches(it, n):
@@ -930,25 +1060,47 @@ def setup(ctx, cplx, pool_seed):
 
 def stream(ctx, cplx, pool_seed, it, count=True):
     pool, spaces, pool_ids = setup(ctx, cplx, pool_seed)
-    for b in batches(it(pool), 400):
+    for b in batches(it(pool), 6000):
         for c in b:
             c['pool_seed'] = pool_seed
         process(ctx, b, pool, spaces, pool_ids, count)
 
 
+MODEL_BRANCHES = ['class/' + n for n in (
+    'OperatorSum', 'FunctionalSum', 'FunctionalScalarSum', 'OperatorVectorSum', 'OperatorComp',
+    'FunctionalComp', 'OperatorPointwiseProduct', 'FunctionalProduct', 'FunctionalQuotient',
+    'OperatorLeftScalarMult', 'FunctionalLeftScalarMult', 'OperatorRightScalarMult',
+    'FunctionalRightScalarMult', 'OperatorLeftVectorMult', 'OperatorRightVectorMult',
+    'FunctionalRightVectorMult', 'FunctionalLeftVectorMult', 'ConstantFunctional',
+    'ZeroFunctional')] + ['dispatch/reflected-first-add', 'raise/OpTypeError', 'raise/TypeError',
+                          'raise/ZeroDivisionError']
+
+
 def run(ctx):
+    try:
+        _run(ctx)
+        unhit = [b for b in MODEL_BRANCHES if not ctx.branches.get(b)]
+        ctx.extra['unhit_model_branches'] = unhit
+        if unhit and not ctx.quick:
+            ctx.disagree({'unhit_model_branches': unhit}, 'never generated',
+                         'the model has this constructor / dispatch branch', stream='coverage')
+    finally:
+        flush(ctx)
+
+
+def _run(ctx):
     quick = ctx.quick
-    n_rand = 700 if quick else 6000
+    n_rand = 1500 if quick else 8000
     depth = 6 if quick else 9
     kinds_q = ('pow2', 'mat', 'l2sq', 'linf', 'inner', 'constf')
     kinds_t = ('pow2', 'pow3', 'mat', 'scale', 'ident', 'l2sq', 'linf', 'inner', 'constf', 'zerof')
     for cplx in (False, True):
         seed = ctx.rng.getrandbits(32)
         stream(ctx, cplx, seed, lambda pool: random_cases(ctx, pool, cplx, n_rand, depth))
-        if not quick or not cplx:
-            seed = ctx.rng.getrandbits(32)
-            stream(ctx, cplx, seed,
-                   lambda pool: systematic_cases(ctx, pool, cplx, kinds_q if quick else kinds_t))
+        seed = ctx.rng.getrandbits(32)
+        stream(ctx, cplx, seed,
+               lambda pool: systematic_cases(ctx, pool, cplx, kinds_q if quick else kinds_t))
+        stream(ctx, cplx, seed, lambda pool: targeted_cases(ctx, pool, cplx))
 
 
 def search(ctx, broken):
@@ -963,15 +1115,16 @@ def search(ctx, broken):
             seed = ctx.rng.getrandbits(32)
             stream(ctx, cplx, seed, lambda pool: systematic_cases(ctx, pool, cplx, kinds),
                    count=False)
-            if ctx.violations:
+            if PENDING:
                 return
             seed = ctx.rng.getrandbits(32)
             stream(ctx, cplx, seed, lambda pool: random_cases(ctx, pool, cplx, 3000, 8),
                    count=False)
-            if ctx.violations:
+            if PENDING:
                 return
     finally:
         ctx.tier = saved
+        flush(ctx)
 
 
 def replay(ctx, case):
